@@ -583,6 +583,8 @@ pub fn run(_env: &Env, run: &Run) -> (Stats, Coverage) {
     let sched = crate::props::c16_sched::run_sched(run.tier, &mut st);
     // (e) free-running stress in fresh processes - sampling, supplementary
     let stress_report = stress(run, &mut st);
+    // (f) race-detector pass: the same kind of bodies on free-running threads under ThreadSanitizer
+    let race_report = crate::race::race_pass("lib", run, &mut st);
     // (d)
     let (known, unknown) = shared_state_inventory();
     let instrumented = std::env::var("PMC_SCHED_MODE").map(|m| m == "instrumented").unwrap_or(false);
@@ -600,12 +602,12 @@ pub fn run(_env: &Env, run: &Run) -> (Stats, Coverage) {
     st.sample(json!({"forms": "UsernameCaseMapped::enforce(\"Abc\") via static/new()/default()/long-lived x &str/String/&String/Cow::Borrowed/Cow::Owned", "expected": "all Ok(\"abc\")"}));
     st.sample(json!({"history": ["Nickname.enforce(U+00A8 a)", "UsernameCaseMapped.compare(Abc, ABC)", "Nickname.enforce(U+00A8 a)"], "expected": "each result equals the result of the same call made first in a fresh process"}));
     let cov = Coverage {
-        rule: format!("(a) every string of length <= {} over 16 symbols x 4 profiles x {{prepare, enforce}} x 12 (entry point, argument form) pairs and compare x 8 forms: all equal; (b) every call history of length <= {} over an alphabet of {} calls (4 profiles x 3 ops x 10 inputs hitting every fast and slow path) executed on the process-wide statics and on one long-lived instance per profile, every result compared with the result of that call as the FIRST library call of a fresh process ({} child processes); (c) every interleaving of 2-3 threads over the lazy-singleton points, see 'schedules'; (d) inventory of shared-state constructs in the three crates; (e) SAMPLING, supplementary: free-running threads released from a barrier in fresh child processes; non-trivial = histories mixing different calls", n, depth, alpha.len(), alpha.len()),
+        rule: format!("(a) every string of length <= {} over 16 symbols x 4 profiles x {{prepare, enforce}} x 12 (entry point, argument form) pairs and compare x 8 forms: all equal; (b) every call history of length <= {} over an alphabet of {} calls (4 profiles x 3 ops x 10 inputs hitting every fast and slow path) executed on the process-wide statics and on one long-lived instance per profile, every result compared with the result of that call as the FIRST library call of a fresh process ({} child processes); (c) every interleaving of 2-3 threads over the lazy-singleton points, see 'schedules'; (d) inventory of shared-state constructs in the three crates; (e) SAMPLING, supplementary: free-running threads released from a barrier in fresh child processes; (f) race-detector pass for state the explorer has no scheduling point for: every one of ~1000 library calls (4 profiles x static/instance/rule-level entry points, both classes, all 8 context rules x 46 labels) as the first use of the library by 3 threads of a fresh process, and every unordered pair of those calls on 2 free-running threads, under ThreadSanitizer with std rebuilt (see 'race_detector_pass'); non-trivial = histories mixing different calls", n, depth, alpha.len(), alpha.len()),
         alphabet: json!({"symbols": sigma.iter().map(|c| format!("U+{:04X}", *c as u32)).collect::<Vec<_>>(), "history_inputs": INPUTS.iter().map(|s| show(s)).collect::<Vec<_>>()}),
         bound_completed: format!("forms: {} strings; histories: depth {}", tree_size(sigma.len(), n), depth),
         exhaustive: false,
         assumptions: vec!["std::sync::Once (inside lazy_static) is trusted; the schedule explorer models it and checks the crates' code around the singletons".into()],
-        extra: json!({"abstract_states_after_histories": distinct_states.len(), "shared_state_known": known, "shared_state_unmodelled": unknown, "schedules": sched, "stress": stress_report}),
+        extra: json!({"abstract_states_after_histories": distinct_states.len(), "shared_state_known": known, "shared_state_unmodelled": unknown, "schedules": sched, "stress": stress_report, "race_detector_pass": race_report}),
     };
     (st, cov)
 }
@@ -630,6 +632,7 @@ pub fn replay(_env: &Env, case: &Case) -> Vec<Violation> {
         "schedule" => {
             st.violations = crate::props::c16_sched::replay_sched(case);
         }
+        "race" => st.violations = crate::race::replay(case),
         "stress" | "stress_crash" => {
             // sampling: re-running the same seed is likely, not certain, to show the mismatch again
             let fake = Run { prop: "C16".into(), tier: Tier::Quick, seed: case.nums.first().copied().unwrap_or(0) / 1000, start: std::time::Instant::now(), known: vec![] };
